@@ -804,4 +804,48 @@ theorem containsOff_entry (u : UnitHdr) (off : Nat) (h : u.inBounds off = true) 
   exact h
 
 
+/-! ## small facts used by the property theorems -/
+
+theorem firstErr_none {l : List (Option ConvErr)} : firstErr l = none ↔ ∀ x, x ∈ l → x = none := by
+  induction l with
+  | nil => simp [firstErr]
+  | cons a l ih =>
+    cases a with
+    | none => simp [firstErr, ih]
+    | some e => simp [firstErr]
+
+theorem convUnitRef_none {ids : List Off} {u : UnitHdr} {val : Nat} :
+    convUnitRef ids u val = none ↔ (u.inBounds val = true ∧ u.base + val ∈ ids) := by
+  simp only [convUnitRef]
+  by_cases h : (u.inBounds val && ids.contains (u.base + val)) = true
+  · simp only [h, if_true, true_iff]
+    simpa using h
+  · have h' : (u.inBounds val && ids.contains (u.base + val)) = false := by simpa using h
+    simp only [h', Bool.false_eq_true, if_false]
+    constructor
+    · intro hc; cases hc
+    · intro hc; exact (h (by simpa using hc)).elim
+
+theorem convInfoRef_none {ids : List Off} {val : Off} :
+    convInfoRef ids val = none ↔ val ∈ ids := by
+  simp only [convInfoRef]
+  by_cases h : ids.contains val = true
+  · simp only [h, if_true, true_iff]; simpa using h
+  · have h' : ids.contains val = false := by simpa using h
+    simp only [h', Bool.false_eq_true, if_false]
+    constructor
+    · intro hc; cases hc
+    · intro hc; exact (h (by simpa using hc)).elim
+
+/-- the DIE offsets of the section are pairwise distinct -/
+def Distinct (units : List (UnitHdr × List Entry)) : Prop := ((records units).map Rec.off).Nodup
+
+/-- a section as the raw reader can deliver it: distinct DIE offsets, units in ascending
+non-overlapping order, every DIE inside the bounds of its unit -/
+structure WellFormed (units : List (UnitHdr × List Entry)) : Prop where
+  distinct : Distinct units
+  ascending : (units.map (·.1)).Pairwise (fun u v => u.endOff ≤ v.base)
+  inside : ∀ ue, ue ∈ units → ∀ e, e ∈ ue.2 → ue.1.inBounds e.off = true
+
+
 end Gimli.Filter
